@@ -506,8 +506,11 @@ impl<'a> Gen<'a> {
         }
         // more conjuncts on the key: a second lower / upper bound, an equality next to a range
         // (agreeing with it or contradicting it)
+        // (at most three conjuncts on the key: with four of them plus a residual condition the
+        // optimizer's rewriting does not terminate in minutes - a performance pathology outside
+        // the listed properties, and a run that long is of no use here)
         if self.rng.chance(1, 4) {
-            for _ in 0..(1 + self.rng.usize(2)) {
+            for _ in 0..(1 + self.rng.usize(2)).min(3 - atoms.len()) {
                 let op = *self.rng.pick(&[Cmp::Eq, Cmp::Lt, Cmp::Le, Cmp::Gt, Cmp::Ge]);
                 let val = pick_key(self);
                 atoms.push(Atom::Cmp { col: c.name.clone(), op, val });
